@@ -1,9 +1,18 @@
 ---------------------------- MODULE KeyFetchPool ----------------------------
 (* C19 - keyring.go DirectKeyFetcher.FetchKeys as it is.                        *)
 (*                                                                              *)
-(* The requested servers are queued on a closed channel (`pending`; Go map       *)
-(* iteration makes the order arbitrary), min(64, #servers) workers take servers  *)
-(* from it; for each server a worker asks the server directly (GetServerKeys +   *)
+(* The worker pool is explicit.  The caller creates a job queue (`pending`, a     *)
+(* buffered channel of capacity Q), sends every requested server to it (Go map    *)
+(* iteration makes the order arbitrary; a send blocks while the queue holds Q     *)
+(* servers), closes it, THEN starts W workers and waits for them.  In the code      *)
+(* Q = #servers and W = min(64, #servers); Q, W and the order "fill before start"   *)
+(* (StartFirst = FALSE) are constants so that the design requirement is visible:    *)
+(* with fill-before-start a queue of capacity Q < #servers blocks the caller on     *)
+(* send number Q+1 before any worker exists (KeyFetchPool_smallqueue.cfg: TLC       *)
+(* reports the deadlock), whereas Q >= #servers - or starting the workers first -   *)
+(* is deadlock free for every W >= 1.                                              *)
+(* A worker receives from the queue (blocks while it is empty and open, exits when  *)
+(* it is empty and closed); for each server it asks the server directly (GetServerKeys + *)
 (* CheckKeys), on any failure asks the server as its own notary                  *)
 (* (LookupServerKeys + CheckKeys) and on success merges the server's keys into   *)
 (* the shared result map under resultsMutex (one critical section = one action). *)
@@ -17,33 +26,65 @@
 (* Property (over the history variable `succ`, never read by the mechanics): the  *)
 (* returned map is exactly the local keys plus the union of the keys of the       *)
 (* servers one of whose stages succeeded - for every completion order and fault   *)
-(* pattern - and every call returns.                                             *)
+(* pattern - and every call returns: no reachable state is a deadlock (TLC         *)
+(* deadlock check; the only terminal state is "returned") and <>returned under     *)
+(* weak fairness.                                                                  *)
 EXTENDS Integers, FiniteSets, TLC
 
-CONSTANTS Servers, NWorkers, KeyIds, DirectOutcomes, NotaryOutcomes, HasLocal
+CONSTANTS Servers, NWorkers, Q, StartFirst, KeyIds, DirectOutcomes, NotaryOutcomes, HasLocal
 
 Workers == 1..NWorkers
 KeysOf(s) == {<<s, k>> : k \in KeyIds}
 LocalKeys == IF HasLocal THEN {<<"local", k>> : k \in KeyIds} ELSE {}
 
-VARIABLES pending,   \* servers still on the channel
+VARIABLES caller,    \* the caller of FetchKeys: "fill", "start", "wait"
+          tosend,    \* servers the caller has not yet sent to the queue
+          closed,    \* close(pending) has happened
+          pending,   \* servers in the queue (at most Q)
           w,         \* per worker: [pc, s]
           results,   \* the shared map (as the set of its keys; values are determined by the key)
           returned, out,
           succ,      \* history: servers whose direct or notary fetch succeeded
           taken      \* history: how often each server was taken from the channel
 
-vars == <<pending, w, results, returned, out, succ, taken>>
-mech == <<pending, w, results, returned, out>>
+vars == <<caller, tosend, closed, pending, w, results, returned, out, succ, taken>>
+mech == <<caller, tosend, closed, pending, w, results, returned, out>>
 
 Init ==
-  /\ pending = Servers
-  /\ w = [i \in Workers |-> [pc |-> "take", s |-> ""]]
+  /\ caller = IF StartFirst THEN "start" ELSE "fill"
+  /\ tosend = Servers
+  /\ closed = FALSE
+  /\ pending = {}
+  /\ w = [i \in Workers |-> [pc |-> "unstarted", s |-> ""]]
   /\ results = LocalKeys
   /\ returned = FALSE
   /\ out = {}
   /\ succ = {}
   /\ taken = [s \in Servers |-> 0]
+
+(* for serverName := range byServer { pending <- serverName }: a send blocks while the queue is full *)
+Send(s) ==
+  /\ caller = "fill"
+  /\ s \in tosend
+  /\ Cardinality(pending) < Q
+  /\ tosend' = tosend \ {s}
+  /\ pending' = pending \cup {s}
+  /\ UNCHANGED <<caller, closed, w, results, returned, out, succ, taken>>
+
+(* close(pending) *)
+Close ==
+  /\ caller = "fill"
+  /\ tosend = {}
+  /\ closed' = TRUE
+  /\ caller' = IF StartFirst THEN "wait" ELSE "start"
+  /\ UNCHANGED <<tosend, pending, w, results, returned, out, succ, taken>>
+
+(* for i := 0; i < numWorkers; i++ { go worker(pending) } *)
+StartWorkers ==
+  /\ caller = "start"
+  /\ w' = [i \in Workers |-> [pc |-> "take", s |-> ""]]
+  /\ caller' = IF StartFirst THEN "fill" ELSE "wait"
+  /\ UNCHANGED <<tosend, closed, pending, results, returned, out, succ, taken>>
 
 Take(i) ==
   /\ w[i].pc = "take"
@@ -53,9 +94,10 @@ Take(i) ==
              /\ w' = [w EXCEPT ![i] = [pc |-> "direct", s |-> s]]
              /\ taken' = [taken EXCEPT ![s] = @ + 1]
      \/ /\ pending = {}
+        /\ closed
         /\ w' = [w EXCEPT ![i] = [pc |-> "exit", s |-> ""]]
         /\ UNCHANGED <<pending, taken>>
-  /\ UNCHANGED <<results, returned, out, succ>>
+  /\ UNCHANGED <<caller, tosend, closed, results, returned, out, succ>>
 
 Direct(i, o) ==
   /\ w[i].pc = "direct"
@@ -63,7 +105,7 @@ Direct(i, o) ==
   /\ IF o = "ok"
      THEN w' = [w EXCEPT ![i].pc = "merge"] /\ succ' = succ \cup {w[i].s}
      ELSE w' = [w EXCEPT ![i].pc = "notary"] /\ UNCHANGED succ
-  /\ UNCHANGED <<pending, results, returned, out, taken>>
+  /\ UNCHANGED <<caller, tosend, closed, pending, results, returned, out, taken>>
 
 Notary(i, o) ==
   /\ w[i].pc = "notary"
@@ -71,39 +113,43 @@ Notary(i, o) ==
   /\ IF o = "ok"
      THEN w' = [w EXCEPT ![i].pc = "merge"] /\ succ' = succ \cup {w[i].s}
      ELSE w' = [w EXCEPT ![i] = [pc |-> "take", s |-> ""]] /\ UNCHANGED succ
-  /\ UNCHANGED <<pending, results, returned, out, taken>>
+  /\ UNCHANGED <<caller, tosend, closed, pending, results, returned, out, taken>>
 
 (* resultsMutex.Lock(); for req, keys := range serverResults { results[req] = keys }; resultsMutex.Unlock() *)
 Merge(i) ==
   /\ w[i].pc = "merge"
   /\ results' = results \cup KeysOf(w[i].s)
   /\ w' = [w EXCEPT ![i] = [pc |-> "take", s |-> ""]]
-  /\ UNCHANGED <<pending, returned, out, succ, taken>>
+  /\ UNCHANGED <<caller, tosend, closed, pending, returned, out, succ, taken>>
 
 (* wait.Wait(); return results *)
 Return ==
   /\ ~returned
+  /\ caller = "wait"
   /\ \A i \in Workers : w[i].pc = "exit"
   /\ returned' = TRUE
   /\ out' = results
-  /\ UNCHANGED <<pending, w, results, succ, taken>>
+  /\ UNCHANGED <<caller, tosend, closed, pending, w, results, succ, taken>>
 
 Done == returned /\ UNCHANGED vars
 
 WStep(i) == Take(i) \/ Merge(i) \/ (\E o \in DirectOutcomes : Direct(i, o)) \/ (\E o \in NotaryOutcomes : Notary(i, o))
-Next == (\E i \in Workers : WStep(i)) \/ Return \/ Done
+CStep == (\E s \in Servers : Send(s)) \/ Close \/ StartWorkers \/ Return
+Next == (\E i \in Workers : WStep(i)) \/ CStep \/ Done
 
 Spec == Init /\ [][Next]_vars
-FairSpec == Spec /\ \A i \in Workers : WF_vars(WStep(i)) /\ WF_vars(Return)
+FairSpec == Spec /\ (\A i \in Workers : WF_vars(WStep(i))) /\ WF_vars(CStep)
 View == mech
 
 TypeOK ==
-  /\ pending \subseteq Servers
-  /\ \A i \in Workers : w[i].pc \in {"take", "direct", "notary", "merge", "exit"}
+  /\ pending \subseteq Servers /\ tosend \subseteq Servers
+  /\ caller \in {"fill", "start", "wait"}
+  /\ \A i \in Workers : w[i].pc \in {"unstarted", "take", "direct", "notary", "merge", "exit"}
   /\ results \subseteq (LocalKeys \cup UNION {KeysOf(s) : s \in Servers})
 
 ExactUnion == returned => out = LocalKeys \cup UNION {KeysOf(s) : s \in succ}
 EachServerOnce == \A s \in Servers : taken[s] <= 1 /\ (returned => taken[s] = 1)
 NothingEarly == ~returned => out = {}
+QueueBound == Cardinality(pending) <= Q
 Returns == <>returned
 =============================================================================
